@@ -9,6 +9,7 @@ import (
 	"reflect"
 	"sort"
 	"strings"
+	"time"
 
 	"github.com/wollac/iota-crypto-demo/pkg/pow"
 	powv2 "github.com/wollac/iota-crypto-demo/pkg/pow/v2"
@@ -29,6 +30,9 @@ type mineScenario struct {
 	TargetV2 uint64  `json:"target_v2,omitempty"`
 	Cancel   string  `json:"cancel"`  // never | before | concurrent | reuse (two calls on one Worker, first context cancelled in between)
 	Pattern  []int   `json:"pattern"` // per worker: first batch (0,1,2) holding a qualifying nonce, -1 = none in batches 0..2
+	// Ctx: "" = context.WithCancel(Background); "far-deadline" = a context that also reports a deadline (a day away, so it
+	// never fires during an execution) and is cancelled by its CancelFunc like the others
+	Ctx string `json:"ctx,omitempty"`
 }
 
 func (s *mineScenario) qualifies(nonce uint64) bool {
@@ -65,6 +69,9 @@ func runMine(s *mineScenario, prefix []int, maxPoll int) *mineRun {
 	vchan.ResetForeign()
 	vchan.Unsupported = ""
 	ctx, cancel := context.WithCancel(context.Background())
+	if s.Ctx == "far-deadline" {
+		ctx, cancel = context.WithDeadline(context.Background(), time.Now().Add(24*time.Hour))
+	}
 	defer cancel()
 	ready := false
 	vchan.RegisterForeign(ctx.Done(), &ready)
